@@ -197,8 +197,10 @@ def r15_3(ctx):
     ctx.check(ok, xb.fq, " ; ".join(body), xb.where, "_exit_buffer decrements, then flushes if outermost", "_exit_buffer does not decrement the counter before checking the buffer")
     ec = ctx.repo.fn("console:Console.end_capture")
     g = cfgmod.build(ec.node)
-    render = [n.id for n in g.stmt_nodes() if n.kind == "stmt" and any(isinstance(c, ast.Call) and norm(c.func) == "self._render_buffer" and c.args and "self._buffer" in norm(c.args[0]) for c in ast.walk(n.stmt))]
-    clear = [n.id for n in g.stmt_nodes() if n.kind == "stmt" and isinstance(n.stmt, ast.Delete) and any("self._buffer" in norm(t) for t in n.stmt.targets)]
+    from ..astutil import inline as _inl, single_defs as _sdf
+    _sd = _sdf(ec.node)
+    render = [n.id for n in g.stmt_nodes() if n.kind == "stmt" and any(isinstance(c, ast.Call) and norm(c.func) == "self._render_buffer" and c.args and "self._buffer" in norm(_inl(c.args[0], _sd)) for c in ast.walk(n.stmt))]
+    clear = [n.id for n in g.stmt_nodes() if n.kind == "stmt" and isinstance(n.stmt, ast.Delete) and any("self._buffer" in norm(_inl(t, _sd)) for t in n.stmt.targets)]
     exitb = [n.id for n in g.stmt_nodes() if n.kind == "stmt" and any(isinstance(c, ast.Call) and norm(c.func) == "self._exit_buffer" for c in ast.walk(n.stmt))]
     ok = bool(render) and bool(clear) and bool(exitb)
     if ok:
@@ -230,8 +232,19 @@ def r15_4(ctx):
     ctx.rule("R15.4", "HTML escaping: every segment text appended to the HTML fragments first passes through escape(), whose replace chain handles '&' before '<' and '>'")
     f = ctx.repo.fn("console:Console.export_html")
     esc = f.module.functions.get("Console.export_html.<locals>.escape")
+    esc_names = {"escape"}
     if esc is None:
-        raise AnchorVanished("export_html.<locals>.escape not found")
+        # a module-level helper, possibly bound to a local alias (`escape = _escape_html`)
+        al = alias_map(f.node)
+        for c in walk_local(f.node):
+            if isinstance(c, ast.Call) and isinstance(c.func, ast.Name):
+                tgt = expand_alias(c.func, al)
+                cand = f.module.functions.get(norm(tgt)) if isinstance(tgt, ast.Name) else None
+                if cand is not None and any(isinstance(x, ast.Call) and isinstance(x.func, ast.Attribute) and x.func.attr == "replace" for x in walk_local(cand.node)):
+                    esc = cand
+                    esc_names = {c.func.id, cand.name}
+    if esc is None:
+        raise AnchorVanished("export_html: the HTML escape helper (a function built from str.replace) was not found")
     rets = [r for r in walk_local(esc.node) if isinstance(r, ast.Return)]
     chain = []
     cur = rets[0].value if rets else None
@@ -245,41 +258,71 @@ def r15_4(ctx):
               f"escape() chain {chain} is not '&'->'&amp;' first, then '<' and '>': ampersands produced by later replacements are double-escaped, or a character is left raw")
     # every loop that appends to fragments escapes the text first
     aliases = alias_map(f.node)
-    loops = [n for n in walk_local(f.node) if isinstance(n, ast.For) and "_record_buffer" in norm(n.iter)]
-    ctx.floor(len(loops), 2, "export_html loops over the record")
+    from ..astutil import inline as _inl, single_defs as _sdf
+    _sd = {k: v for k, v in _sdf(f.node).items() if "_record_buffer" in norm(v)}
+    loops = [n for n in walk_local(f.node) if isinstance(n, ast.For) and "_record_buffer" in norm(_inl(n.iter, _sd))]
+    ctx.floor(len(loops), 1, "export_html loops over the record")
     for lp in loops:
         tvar = norm(lp.target.elts[0]) if isinstance(lp.target, ast.Tuple) else None
         first = lp.body[0] if lp.body else None
-        ok = isinstance(first, ast.Assign) and norm(first.targets[0]) == tvar and norm(first.value) == f"escape({tvar})"
+        ok = isinstance(first, ast.Assign) and norm(first.targets[0]) == tvar and any(norm(first.value) == f"{en_}({tvar})" for en_ in esc_names)
         apps = [c for b in lp.body for c in ast.walk(b) if isinstance(c, ast.Call) and norm(expand_alias(c.func, aliases)) == "fragments.append"]
         ok2 = bool(apps) and all(norm(c.args[0]) == tvar for c in apps)
         ctx.check(ok and ok2, f.fq, f"for {norm(lp.target)} in ...: {short(first) if first is not None else ''}", f"{f.module.relpath}:{lp.lineno}", "segment text is escaped before anything else and only that variable is emitted",
                   "a loop over the record appends segment text to the HTML without escaping it first")
         # control filter applied
-        ctx.check("filter_control(" in norm(lp.iter), f.fq, short(lp.iter), f"{f.module.relpath}:{lp.lineno}", "control segments are filtered out of the HTML", "export_html iterates the record without Segment.filter_control: control codes end up in the HTML text")
+        ctx.check("filter_control(" in norm(_inl(lp.iter, _sd)), f.fq, short(lp.iter), f"{f.module.relpath}:{lp.lineno}", "control segments are filtered out of the HTML", "export_html iterates the record without Segment.filter_control: control codes end up in the HTML text")
 
 
 def r15_5(ctx):
-    ctx.rule("R15.5", "text export filter: export_text(styles=False) joins segment.text of exactly the non-control segments of the record, in order; styles=True renders each segment's own style around its own text")
+    from ..yieldpaths import canon_test, consistent
+    from .common import segment_streams
+    ctx.rule("R15.5", "text export filter (decided on the segment-stream normal form: loops, comprehensions, tuple targets or attribute access are the same thing): export_text(styles=False) emits the text of exactly the non-control segments of the record, in order; styles=True emits every segment, its own style rendered around its own text")
     f = ctx.repo.fn("console:Console.export_text")
-    gens = [n for n in walk_local(f.node) if isinstance(n, ast.GeneratorExp)]
-    plain = [ge for ge in gens if "is_control" in norm(ge)]
-    ok = False
-    for ge in plain:
-        c = ge.generators[0]
-        if norm(c.iter) == "self._record_buffer" and len(c.ifs) == 1 and norm(c.ifs[0]) == f"not {norm(c.target)}.is_control" and norm(ge.elt) == f"{norm(c.target)}.text":
-            ok = True
-    ctx.check(ok, f.fq, "plain export generator", f.where, "plain export = text of non-control segments in record order",
-              "export_text(styles=False) is not the concatenation of segment.text over exactly the non-control segments of the record")
-    styled = [ge for ge in gens if "render(" in norm(ge)]
-    ok = False
-    for ge in styled:
-        c = ge.generators[0]
-        if norm(c.iter) == "self._record_buffer" and isinstance(c.target, ast.Tuple):
-            t, s = norm(c.target.elts[0]), norm(c.target.elts[1])
-            if norm(ge.elt) in (f"{s}.render({t}) if {s} else {t}",):
-                ok = True
-    ctx.check(ok, f.fq, "styled export generator", f.where, "styled export renders each segment's text with its own style", "export_text(styles=True) does not render each segment's text with that segment's style")
+    g = cfgmod.build(f.node)
+    streams = segment_streams(f, lambda it: norm(it) == "self._record_buffer")
+    if not streams:
+        raise AnchorVanished("export_text: no loop / comprehension over self._record_buffer found")
+    allp = []
+    for src, paths, anchor in streams:
+        st = anchor
+        while not isinstance(st, ast.stmt):
+            st = f.module.parent_of[st]
+        outer = {}
+        for nid in g.nodes_of(st):
+            for t, v in g.branch_facts(nid):
+                for a, tv in canon_test(t, v):
+                    outer[a] = tv
+        for d, e in paths:
+            dd = dict(outer)
+            dd.update(d)
+            allp.append((tuple(("cond", k, v) for k, v in dd.items()), e))
+
+    def sel(scen):
+        return [(p, e) for p, e in allp if consistent(p, scen)]
+    # styles=False
+    ok = True
+    why = ""
+    for p, e in sel({"styles": False, "CTRL": False}):
+        if e != "TEXT":
+            ok, why = False, f"a non-control segment gives `{e}`"
+    if not sel({"styles": False, "CTRL": False}):
+        ok, why = False, "no path handles non-control segments"
+    for p, e in sel({"styles": False, "CTRL": True}):
+        if e is not None:
+            ok, why = False, f"a control segment gives `{e}`"
+    ctx.check(ok, f.fq, "plain export", f.where, "plain export = text of non-control segments in record order",
+              "export_text(styles=False) is not the concatenation of segment.text over exactly the non-control segments of the record" + (f" ({why})" if why else ""))
+    ok = True
+    why = ""
+    for scen, want in (({"styles": True, "STYLE": True}, "STYLE.render(TEXT)"), ({"styles": True, "STYLE": False}, "TEXT")):
+        got = sel(scen)
+        if not got:
+            ok, why = False, f"no path for {scen}"
+        for p, e in got:
+            if e != want:
+                ok, why = False, f"under {scen} the piece is `{e}`, expected `{want}`"
+    ctx.check(ok, f.fq, "styled export", f.where, "styled export renders each segment's text with its own style", "export_text(styles=True) does not render each segment's text with that segment's style" + (f" ({why})" if why else ""))
 
 
 def r15_6(ctx):
@@ -297,11 +340,15 @@ def r15_6(ctx):
         a0 = nd.stmt.value.args[0]
         ops = [norm(a0.left).rsplit(".", 1)[0], norm(a0.right).rsplit(".", 1)[0]]
         keeps_flag = len(nd.stmt.value.args) >= 3 or any(k.arg == "is_control" for k in nd.stmt.value.keywords)
+        from ..astutil import inline as _inl, single_defs as _sdf
+        from ..yieldpaths import canon_test
+        _sd = _sdf(f.node)
         facts = g.branch_facts(nd.id)
-        conj = []
+        cf = {}
         for t, v in facts:
-            if v is True:
-                conj += [norm(x) for x in (t.values if isinstance(t, ast.BoolOp) and isinstance(t.op, ast.And) else [t])]
+            for a, tv in canon_test(_inl(t, _sd), v):
+                cf[a] = tv
+        conj = [a for a, tv in cf.items() if tv is True] + [f"not {a}" for a, tv in cf.items() if tv is False]
         missing = [o for o in ops if f"not {o}.is_control" not in conj]
         ctx.check(keeps_flag or not missing, f.fq, short(nd.stmt), f"{f.module.relpath}:{nd.lineno}", f"merge of {ops} guarded by `not is_control` for both",
                   f"segments are merged into an ordinary segment although `{'` / `'.join(missing)}` may be a control segment: its control codes become visible text (e.g. the bell character shows up in export_html)")
